@@ -198,71 +198,159 @@ def gen_malformed(ctx):
     return out
 
 
+def expected_class(cl, c, bits):
+    """the width-class answers the generated tables list for code point c (bits: 1 dwchars, 2 zwchars,
+    4 bchars, 8 acomb_ranges); same text as the probe's wclass_of"""
+    dw, zw, bc, ac = bits & 1, (bits >> 1) & 1, (bits >> 2) & 1, (bits >> 3) & 1
+    pa = cl.plain_ascii(c)
+    bell = 1 if (not pa) and (zw or bc) else 0
+    w = 0 if zw else 2 if dw else 1
+    comb = 1 if (not pa) and ac else 0
+    if c == 9:
+        cw0, cw5 = 8, 3
+    elif c in cl.ph:
+        cw0 = cw5 = cl.ph[c][1]
+    elif bell:
+        cw0 = cw5 = 1
+    else:
+        cw0 = cw5 = w
+    ph = vlib.hx(cl.ph[c][0]) if c in cl.ph else ('efbfbd' if bell else 'x')
+    return '%d %d %d %d %d %d %d %d %s' % (dw, zw, bc, w, bell, comb, cw0, cw5, ph)
+
+
+def expected_runs(cl, lo, hi):
+    """maximal runs (start, end, class text) of expected_class over lo..hi; table membership of EVERY
+    code point is computed (one byte per code point, linear over the table rows -- no order assumed)"""
+    t = cl.t
+    size = hi + 2
+    comb = 0
+    for k, name in enumerate(('dwchars', 'zwchars', 'bchars', 'acomb_ranges')):
+        m = bytearray(size)
+        for a, b in t[name]:
+            a, b = max(a, 0), min(b, hi)
+            if a <= b:
+                m[a:b + 1] = b'\x01' * (b - a + 1)
+        comb |= int.from_bytes(bytes(m), 'little') << k      # every byte holds 0/1: the shift stays inside the byte
+    bits = comb.to_bytes(size, 'little')
+    special = set(range(0, 0x101)) | set(cl.ph) | set(c + 1 for c in cl.ph)
+    runs = []
+    import re as _re
+    for m in _re.finditer(rb'(?s)(.)\1*', bits[lo:hi + 1]):
+        s0, e0 = lo + m.start(), lo + m.end() - 1
+        cuts = sorted(x for x in special if s0 < x <= e0)
+        for s1, e1 in zip([s0] + cuts, [x - 1 for x in cuts] + [e0]):
+            v = expected_class(cl, s1, bits[s1])
+            if runs and runs[-1][2] == v:
+                runs[-1] = (runs[-1][0], e1, v)
+            else:
+                runs.append((s1, e1, v))
+    return runs
+
+
+def parse_runs(line):
+    out = []
+    for e in line.split(';'):
+        if e:
+            rng, _c, v = e.partition(':')
+            a, _d, b = rng.partition('-')
+            out.append((int(a), int(b), v))
+    return out
+
+
+def first_diff(r1, r2):
+    """first code point where two run lists (covering the same interval) answer differently"""
+    i = j = 0
+    while i < len(r1) and j < len(r2):
+        a, b = r1[i], r2[j]
+        if a[2] != b[2]:
+            return max(a[0], b[0]), a[2], b[2]
+        if a[1] <= b[1]:
+            i += 1
+        if b[1] <= a[1]:
+            j += 1
+    return None
+
+
 def sweep(ctx, cl, probe, model):
-    """width class of every code point: implementation vs model vs the generated tables"""
+    """width class of every code point.  The implementation is evaluated at EVERY code point (the probe
+    compresses equal neighbours into runs); the oracle is table membership of every code point, compressed
+    the same way; the extracted model prints its runs from evaluations at the ends and the middle of every
+    piece between two table bounds (all code points of a dense sample and, in the thorough tier, all
+    code points one by one as well)."""
     res = ctx.res
     lo, hi = 1, 0x10ffff
-    step = (hi - lo + 16) // 16
-    parts = [(a, min(hi, a + step - 1)) for a in range(lo, hi + 1, step)]
+    rq = 'wclass %d %d' % (lo, hi)
+    dense = (1, 0x0fff) if ctx.quick else (lo, hi)
+    step = (dense[1] - dense[0] + 16) // 16
+    parts = [(a, min(dense[1], a + step - 1)) for a in range(dense[0], dense[1] + 1, step)]
+    jobs = [('probe', rq), ('model', rq), ('expected', None)] + [('dense', p) for p in parts]
 
-    def one(p):
-        r1 = vlib.run_lines(probe, ['wsweep %d %d' % p], timeout=1200)
-        r2 = vlib.run_lines(model, ['wsweep %d %d' % p], timeout=1200) if model else None
-        return p, r1, r2
+    def one(job):
+        kind, arg = job
+        if kind == 'probe':
+            return vlib.run_lines(probe, [arg], timeout=1200)
+        if kind == 'model':
+            return vlib.run_lines(model, [arg], timeout=1200) if model else None
+        if kind == 'expected':
+            return expected_runs(cl, lo, hi)
+        r1 = vlib.run_lines(probe, ['wsweep %d %d' % arg], timeout=1200)
+        r2 = vlib.run_lines(model, ['wsweep %d %d' % arg], timeout=2400) if model else None
+        return r1, r2
 
-    t = cl.t
-    marks = {}
-    for name in ('dwchars', 'zwchars', 'bchars', 'acomb_ranges'):
-        m = bytearray(hi + 2)
-        for a, b in t[name]:
-            for c in range(max(a, 0), min(b, hi) + 1):
-                m[c] = 1
-        marks[name] = m
+    out = vlib.pmap(one, jobs)
+    (rc1, out1, err1), r2, want = out[0], out[1], out[2]
+    if rc1 != 0 or len(out1) != 1:
+        res.violation({'what': 'probe_ren wclass failed: rc=%d, %d lines' % (rc1, len(out1)), 'input': [rq], 'stderr': err1[-2000:]})
+        return
+    got = parse_runs(out1[0])
+    if not got or got[0][0] != lo or got[-1][1] != hi or any(got[i][1] + 1 != got[i + 1][0] for i in range(len(got) - 1)):
+        res.violation({'what': 'probe_ren wclass: the runs do not cover %d..%d' % (lo, hi), 'input': [rq], 'observed': out1[0][:600]})
+        return
+    res.evaluations += hi - lo + 1
+    # oracle: the answers of the implementation are what the tables list, for every code point
     nbad = 0
-    for p, (rc1, out1, err1), r2 in vlib.pmap(one, parts):
-        if rc1 != 0 or len(out1) != p[1] - p[0] + 1:
-            res.violation({'what': 'probe_ren wsweep failed: rc=%d, %d lines' % (rc1, len(out1)), 'input': ['wsweep %d %d' % p], 'stderr': err1[-2000:]})
+    w = want
+    while nbad < 3:
+        d = first_diff(got, w)
+        if d is None:
+            break
+        c, a, b = d
+        nbad += 1
+        res.violation({'what': 'U+%04X: the width class is not the one the tables list (fields: isdw iszw inbchars wid isbell iscomb cwid@0 cwid@5 placeholder)' % c,
+                       'input': ['wsweep %d %d' % (c, c)], 'expected': b, 'observed': a})
+        # continue after c: cut both lists
+        got = [(max(s0, c + 1), e0, v) for s0, e0, v in got if e0 > c]
+        w = [(max(s0, c + 1), e0, v) for s0, e0, v in w if e0 > c]
+    got = parse_runs(out1[0])
+    # correspondence: model vs implementation
+    if r2 is not None:
+        rc2, out2, err2 = r2
+        mruns = parse_runs(out2[0]) if rc2 == 0 and len(out2) == 1 else None
+        if not mruns or mruns[0][0] != lo or mruns[-1][1] != hi:
+            res.disagree({'what': 'model wclass failed: rc=%d, %d lines: %s' % (rc2, len(out2), err2[-600:]), 'input': [rq]})
+        elif mruns != got:
+            d = first_diff(got, mruns)
+            c = d[0] if d else lo
+            res.disagree({'what': 'width class: model and implementation differ', 'input': ['wsweep %d %d' % (c, c)],
+                          'implementation': d[1] if d else None, 'model': d[2] if d else None})
+    for (kind, p), r in zip(jobs[3:], out[3:]):
+        (rc1, o1, err1), r2 = r
+        if rc1 != 0 or len(o1) != p[1] - p[0] + 1:
+            res.violation({'what': 'probe_ren wsweep failed: rc=%d, %d lines' % (rc1, len(o1)), 'input': ['wsweep %d %d' % p], 'stderr': err1[-2000:]})
             continue
         if r2 is not None:
-            rc2, out2, err2 = r2
-            if rc2 != 0 or len(out2) != len(out1):
-                res.disagree({'what': 'model wsweep failed: rc=%d, %d lines' % (rc2, len(out2)), 'input': ['wsweep %d %d' % p]})
-            elif out1 != out2:
-                for a, b in zip(out1, out2):
+            rc2, o2, err2 = r2
+            if rc2 != 0 or len(o2) != len(o1):
+                res.disagree({'what': 'model wsweep failed: rc=%d, %d lines' % (rc2, len(o2)), 'input': ['wsweep %d %d' % p]})
+            elif o1 != o2:
+                for a, b in zip(o1, o2):
                     if a != b:
                         c = a.split()[0]
                         res.disagree({'what': 'width class: model and implementation differ', 'input': ['wsweep %s %s' % (c, c)], 'implementation': a, 'model': b})
                         break
-        for c, line in zip(range(p[0], p[1] + 1), out1):
-            res.evaluations += 1
-            dw, zw, bc, ac = marks['dwchars'][c], marks['zwchars'][c], marks['bchars'][c], marks['acomb_ranges'][c]
-            pa = cl.plain_ascii(c)
-            bell = (not pa) and (zw or bc)
-            w = 0 if zw else 2 if dw else 1
-            comb = (not pa) and ac
-            if c == 9:
-                cw0, cw5 = 8, 3
-            elif c in cl.ph:
-                cw0 = cw5 = cl.ph[c][1]
-            elif bell:
-                cw0 = cw5 = 1
-            else:
-                cw0 = cw5 = w
-            want = '%d %d %d %d %d %d %d %d %d ' % (c, dw, zw, bc, w, bell, comb, cw0, cw5)
-            if not line.startswith(want):
-                nbad += 1
-                if nbad <= 3:
-                    res.violation({'what': 'U+%04X: the width class is not the one the tables list (fields: c isdw iszw inbchars wid isbell iscomb cwid@0 cwid@5)' % c,
-                                   'input': ['wsweep %d %d' % (c, c)], 'expected': want.strip(), 'observed': line})
-            else:
-                ph = line[len(want):]
-                wantph = cl.ph[c][0].hex() if c in cl.ph else ('efbfbd' if bell else 'x')
-                if ph != wantph:
-                    nbad += 1
-                    if nbad <= 3:
-                        res.violation({'what': 'U+%04X: placeholder %s, the tables say %s' % (c, ph, wantph), 'input': ['wsweep %d %d' % (c, c)],
-                                       'expected': wantph, 'observed': ph})
-    res.count('code points (width class, exhaustive)', hi - lo + 1)
+    res.count('code points (width class, exhaustive on the implementation and the tables)', hi - lo + 1)
+    res.count('code points evaluated one by one by the model', dense[1] - dense[0] + 1)
+    res.extra['width_class_runs'] = len(got)
     for k in ('sweep:double', 'sweep:zero', 'sweep:bell', 'sweep:placeholder', 'sweep:tab'):
         res.nontriv(k)
     res.extra['exhaustive_code_points'] = True
@@ -271,8 +359,7 @@ def sweep(ctx, cl, probe, model):
 def run(ctx):
     res = ctx.res
     cl = rc.Classes(rc.tables())
-    probe, probe_asan = rc.build()
-    model = ctx.model('ren')
+    probe, probe_asan, model = rc.build(model=lambda: ctx.model('ren'))
     res.rule = ('one evaluation = one line x option setting through ren_position, ren_pos, ren_off, ren_cursor, ren_next (both ways), ren_noeol, '
                 'ren_wid, pos_next, pos_prev at every offset and every column (both ends for lines wider than 80), or one code point of the '
                 'exhaustive width-class sweep; non-trivial = the line contains a tab, a wide, zero-width, placeholder, control or right-to-left '
